@@ -359,13 +359,19 @@ func (fr *Frame) evalBinop(e *CExpr, ctx *evalCtx) *Val {
 		if a.sort != sInt || b.sort != sInt {
 			efail("arithmetic on non-integers in %s", e)
 		}
-		if op == "*" && !isLiteral(a.t) && !isLiteral(b.t) {
+		if op == "*" && !isLiteral(a.t) && !isLiteral(b.t) && !fr.vc.nativeArith {
 			return &Val{t: app("MUL", a.t, b.t), sort: sInt, typ: arithType(a, b)}
 		}
 		return &Val{t: app(op, a.t, b.t), sort: sInt, typ: arithType(a, b)}
 	case "/":
+		if !isLiteral(b.t) && !fr.vc.nativeArith {
+			return &Val{t: app("DIVU", a.t, b.t), sort: sInt, typ: arithType(a, b)}
+		}
 		return &Val{t: app("div", a.t, b.t), sort: sInt, typ: arithType(a, b)}
 	case "%":
+		if !isLiteral(b.t) && !fr.vc.nativeArith {
+			return &Val{t: app("MODU", a.t, b.t), sort: sInt, typ: arithType(a, b)}
+		}
 		return &Val{t: app("mod", a.t, b.t), sort: sInt, typ: arithType(a, b)}
 	}
 	efail("unknown operator %s", op)
@@ -853,4 +859,43 @@ func (eng *Engine) parseType(ts string) types.Type {
 	}
 	eng.typeCache[ts] = t
 	return t
+}
+
+// Built-in arithmetic lemmas about MUL (integer multiplication); instances
+// are requested by `loop N: lemma name(args)`.  Each template is a valid
+// fact of integer arithmetic (certified with native arithmetic in the selftest).
+var arithLemmas = map[string]func(a []string) string{
+	"mulsucc": func(a []string) string {
+		return eq(app("MUL", app("+", a[0], "1"), a[1]), app("+", app("MUL", a[0], a[1]), a[1]))
+	},
+	"mulmono": func(a []string) string { // x <= z && y >= 0 ==> x*y <= z*y
+		return implies(and(app("<=", a[0], a[1]), app(">=", a[2], "0")), app("<=", app("MUL", a[0], a[2]), app("MUL", a[1], a[2])))
+	},
+}
+
+func (fr *Frame) evalLemmaInstance(cl *Clause, ctx *evalCtx) (t string, err error) {
+	defer func() {
+		if r := recover(); r != nil {
+			if ee, ok := r.(evalErr); ok {
+				err = ee
+				return
+			}
+			panic(r)
+		}
+	}()
+	e := cl.E
+	if e.Kind != "call" || e.Args[0].Kind != "ident" {
+		return "", fmt.Errorf("lemma clause must be name(args): %s", cl.Src)
+	}
+	tmpl, ok := arithLemmas[e.Args[0].Name]
+	if !ok {
+		return "", fmt.Errorf("unknown built-in lemma %s", e.Args[0].Name)
+	}
+	var args []string
+	for _, a := range e.Args[1:] {
+		v := fr.eval(a, ctx)
+		args = append(args, fr.scalar(v))
+	}
+	fr.vc.assumed["built-in arithmetic lemma instance: "+e.Args[0].Name] = true
+	return tmpl(args), nil
 }
